@@ -32,6 +32,8 @@ def make_config(rng, profile, tier):
                    coef=[round(rng.uniform(-1.5, 1.5), 2) for _ in range(k)], bounds=[None] * k, fixed=[])
     cfg['chunk'] = rng.choice([None, None, None, 64, 512, 4096])
     cfg['threads'] = rng.choice([1, 2, 0])
+    cfg['ident'] = rng.choice([1e-5, 1e-5, 10.0, 0.0])      # buggify: flips the "not identified" branch of the reports
+    cfg['only_robust'] = rng.random() < 0.5
     # database names: anything the file system accepts
     cfg['dbname'] = rng.choice(['d', 'data set', 'swiss', 'survey:2020', 'what?', 'a*b', 'x|y', 'q<1>'])
     return cfg
@@ -246,6 +248,8 @@ class Session:
         p.set_value('generate_pickle', pick)
         p.set_value('number_of_threads', self.cfg['threads'] or 0)
         p.set_value('max_iterations', 60)
+        p.set_value('identification_threshold', self.cfg.get('ident', 1e-5))
+        p.set_value('only_robust_stats', self.cfg.get('only_robust', True))
         if boot:
             p.set_value('bootstrap_samples', boot)
         b = bio.BIOGEME(d, ll, parameters=p)
@@ -448,7 +452,8 @@ class Session:
                 keep = CLOCK.t
                 CLOCK.t = pk['instant']
                 try:
-                    ok, r2 = self._lib('I14.3.raise', res.bioResults, pickle_file=pk['file'])
+                    ok, r2 = self._lib('I14.3.raise', res.bioResults, pickle_file=pk['file'],
+                                      identification_threshold=self.cfg.get('ident', 1e-5))
                     if ok:
                         snap2 = self._snap_reports(r2)
                         for key, val in pk['snap'].items():
